@@ -29,8 +29,14 @@ def penalty_matrix(n, lam, w):
 def worker(w, cfg):
     n, lam = cfg["n"], F(cfg["lam"])
     ys = [z3.Real(f"y{i}") for i in range(n)]
+    long_series = bool(cfg.get("long"))
     for wv in cfg["weights"]:
         wv = [F(x) for x in wv]
+        if long_series:
+            # long series: y is symbolic at the first / middle / last weighted sample and at one unweighted sample, fixed integers elsewhere
+            pos = [i for i in range(n) if wv[i] > 0]
+            sym = {pos[0], pos[len(pos) // 2], pos[-1]} | {i for i in range(n) if wv[i] == 0 and i in (n - 1, n // 2)}
+            ys = [z3.Real(f"y{i}") if i in sym else z3.RealVal((i * 37) % 101 - 50) for i in range(n)]
         it = C.new_interp(policy="exact")
         fn = it.get_function("hdc.algo.ops.ws2d", "ws2d")
         st = State()
@@ -70,6 +76,8 @@ def worker(w, cfg):
         w.discharge("ws2d.normal_equations", [], z3.And(*rows), concretize=conc, sample=True)
         for ob in it.obligations:
             w.discharge(f"ws2d.{ob.kind}@{ob.where}", [], ob.claim, guard=ob.guard, concretize=conc)
+        if long_series:
+            continue
         # uniqueness of the minimiser (property of the system the code is compared against)
         us = [z3.Real(f"u{i}") for i in range(n)]
         hom = [z3.Sum([z3.RealVal(A[i][j]) * us[j] for j in range(n)]) == 0 for i in range(n)]
@@ -130,6 +138,15 @@ def configs(tier):
             # chunk to keep worker tasks balanced
             for k in range(0, len(wvs), 64):
                 cf.append({"n": n, "lam": str(lam), "weights": [[str(x) for x in v] for v in wvs[k:k + 64]]})
+    # long series (behaviour that only shows beyond a length threshold or after long runs of equal / zero weights): y symbolic at
+    # four samples, fixed elsewhere
+    longs = [(140, "1", [1] * 140), (140, "100", [1] * 140), (50, "1/1000000", [1] * 10 + [0] * 40), (50, "1/1000000", [0] * 40 + [1] * 10),
+             (90, "1/100000", [1] * 15 + [0] * 75)]
+    if tier == "thorough":
+        longs += [(200, "10", [1] * 200), (260, "1", [1] * 100 + [0] * 30 + [1] * 130), (160, "1/1000000", [1] * 20 + [0] * 60 + [1] * 80),
+                  (160, "1/1000", [i % 2 for i in range(160)]), (300, "1000", [1] * 300)]
+    for n, lam, wv in longs:
+        cf.append({"n": n, "lam": lam, "weights": [[str(x) for x in wv]], "long": True})
     return cf
 
 
